@@ -1575,7 +1575,8 @@ theorem top_not_skipped (S : Replay e ops certs votes rops) (hpos : 0 < (poolRun
       rw [← hbe]; exact hb
     refine ⟨⟨b.2, hf⟩, ?_, ?_⟩
     · rintro ⟨c, hm, hk, hs⟩
-      exact S.cons.skip_not_final c hm hk b.2 (by rw [hs]; exact hf)
+      have hd := final_top_direct S.cons.safe hb (fun c' hc' => by rw [hbe]; exact final_le_highest S.cons.safe rp hc')
+      exact S.cons.skip_not_direct c hm hk b.2 (by rw [hs, ← hbe]; exact hd)
     · exact S.cons.safe.final_not_skip hf
 
 theorem mem_of_nfCertAcc {L : List LogItem} {b : Nat × Nat} (h : NfCertAcc L b) :
